@@ -353,6 +353,7 @@ func init() {
 		}
 		scns = append(scns, c07Async(tier)...)
 		scns = append(scns, c07Concurrent(tier)...)
+		scns = append(scns, c07HandOff(tier)...)
 		return scns
 	}
 }
